@@ -53,6 +53,7 @@ def run_body(kind, groups, lstrip_in, comment_depth=0):
         m = st.alloc(HObj(("re", "Match"), {"lastgroup": const(kind), "__groups__": VConst(dict(groups["text"])), "__starts__": VConst(dict(groups["start"])), "__ends__": VConst(dict(groups.get("end", {})))}, {}, "match"))
         st.locals.update({"source": c.source, "rules": VConst(("pattern",)), "lstrip": lstrip_in, "comment_index": c.int("comment_index"), "comment_text": st.alloc(HList(items=[])),
                           "comment_depth": const(comment_depth), "match": m,
+                          "tag_start_string": c.delims[0], "tag_end_string": c.delims[1], "statement_start_string": c.delims[2], "statement_end_string": c.delims[3],
                           "__frame__": VConst({"module": func.module, "cls": None, "closure": None, "qual": func.qual})})
         st.ghost["__gen__"] = ((),)
         outs = []
@@ -77,6 +78,7 @@ def _branch(kind, label, groups, post, hy):
             def body(c):
                 c.eager_generators = True
                 c.source = c.str("source")
+                c.delims = [c.str(n) for n in ("tag_start_string", "tag_end_string", "statement_start_string", "statement_end_string")]
                 g = {"text": {k: c.str("grp_" + k) for k in groups}, "start": {k: c.int("start_" + k) for k in groups}}
                 g["text"]["0"] = c.str("whole_match")
                 g["start"]["0"] = c.int("match_start")
@@ -156,7 +158,7 @@ def post_content(c, g, lin):
     c.ensures("text-emitted-verbatim-except-requested-whitespace-control", p)
     c.ensures("lstrip-flag-consumed-only-by-content", lambda r: z3.BoolVal(True))
     c.raises("LiquidSyntaxError")
-    c.ensures_exc("syntax-error-only-for-text-that-starts-with-a-default-delimiter", lambda r: z3.Or(z3.PrefixOf(z3.StringVal("{{"), expected), z3.PrefixOf(z3.StringVal("{%"), expected)))
+    c.ensures_exc("syntax-error-only-for-text-that-starts-with-an-opening-delimiter-of-this-environment", lambda r: z3.Or(z3.PrefixOf(c.delims[2].t, expected), z3.PrefixOf(c.delims[0].t, expected)))
 
 
 _branch(T("TOKEN_OUTPUT"), "output", ["stmt", "rss"], post_output, H["output_pattern"][0])
